@@ -199,6 +199,14 @@ def install(I):
     def _zip(I, *seqs):
         return list(zip(*[I.concrete_iter(s) for s in seqs]))
 
+    @model(builtins.reversed)
+    def _reversed(I, seq):
+        if isinstance(seq, (list, tuple, ListObj, range)) and not I.symbolic_iter(seq):
+            return ListObj(list(reversed(list(seq))))
+        if hasattr(seq, "pyvc_reversed"):
+            return seq.pyvc_reversed()
+        raise Unsupported("reversed() of a symbolic sequence")
+
     @model(builtins.filter)
     def _filter(I, fn, seq):
         out = []
@@ -420,6 +428,8 @@ def install(I):
 
     @model(builtins.vars)
     def _vars(I, v):
+        if isinstance(v, type):
+            return DictObj(dict(vars(v)))  # a live class object: its own namespace (read-only copy)
         raise Unsupported("vars()")
 
     # ---- operator / functools / copy --------------------------------------------------
